@@ -593,6 +593,14 @@ func families(tier string) []family {
 	addH(feat(fld(0, "aaaaabA", T(I32)), "hash-collision"))                                   // same 32-bit DJB hash as aaaaaab
 	addH(feat(anno(fld(0, "nonascii", T(I32)), "api.key", "aaaaaé"), "hash,non-ascii-alias")) // 7 bytes
 	fams = append(fams, famProgram("hash", hf, "64 names over {a,b} + a hash-0 name + a full-hash collision + a non-ASCII alias"))
+	// hash mode with a full 32-bit collision between two declared names and nothing that forces the trie (the "hash"
+	// family above holds a hash-0 key, which the library cannot store in its hash map and therefore keeps in a trie)
+	{
+		cf := i32Fields(binNames(6, "a"), nil)
+		c := feat(fld(len(cf)+1, "aaaaabA", T(I32)), "hash-collision")
+		cf = append(cf, c)
+		fams = append(fams, famProgram("hash-collide", cf, "64 names a[ab]{6} + aaaaabA, which has the 32-bit DJB hash of aaaaaab"))
+	}
 	// hash mode, names only (what a plain IDL can produce): no special keys
 	fams = append(fams, famProgram("hash-plain", i32Fields(binNames(6, "q"), nil), "64 names q[ab]{6}"))
 	// hash mode with a chain running over the table end (names chosen so that two of them fall on the last slot)
